@@ -92,6 +92,26 @@ def feature_conditional_code():
     return sorted(f for f in found if f in declared)
 
 
+DSIM = os.path.join(VERIF, "target", "sim", "release", "dsim")
+
+
+def run_edge(mode):
+    """Edge scenarios that need the real once_cell and real OS resources (sim/dsim/src/edge.rs), each in a
+    process of its own. Returns (rc, output)."""
+    env = dict(os.environ, CARGO_NET_OFFLINE="true")
+    log = os.path.join(VERIF, "logs", "build-dsim-for-edge.log")
+    with open(log, "w") as f:
+        r = subprocess.run(["cargo", "build", "--release", "--offline", "-p", "dsim"], cwd=os.path.join(VERIF, "sim"), env=env,
+                           stdout=f, stderr=subprocess.STDOUT)
+    if r.returncode != 0:
+        harness_error("building dsim (edge scenarios) against /repo failed; see %s\n%s" % (log, open(log).read()[-2000:]))
+    try:
+        r = subprocess.run([DSIM, "edge", "--mode", mode], capture_output=True, text=True, timeout=300)
+    except subprocess.TimeoutExpired:
+        return 1, "INVARIANT no_termination: edge scenario %s did not finish within 300 s" % mode
+    return r.returncode, (r.stdout + r.stderr).strip()
+
+
 def invariant_of(msg):
     if msg is None:
         return None
@@ -324,6 +344,34 @@ def main():
                 sys.exit(1)
             print("replay of %s: the preflight passes on this tree" % replay)
             sys.exit(0)
+        if rp.get("engine") == "lazysim-edge":
+            rc, out = run_edge(rp["mode"])
+            if rc == 1 and invariant_of(out) == rp["invariant"]:
+                print("reproduced: " + out.splitlines()[-1][:300])
+                print("VIOLATION property=C09 replay=%s" % replay)
+                sys.exit(1)
+            if rc not in (0, 1) and not (rc < 0):
+                harness_error("edge scenario exited with %d: %s" % (rc, out[-500:]))
+            if rc < 0:
+                print("reproduced: the edge scenario was killed by signal %d" % (-rc))
+                print("VIOLATION property=C09 replay=%s" % replay)
+                sys.exit(1)
+            print("replay of %s: the edge scenario %s passes on this tree" % (replay, rp["mode"]))
+            sys.exit(0)
+        if rp.get("engine") == "lazysim-job":
+            build()
+            if rp["job"].get("variant"):
+                build(rp["job"]["variant"])
+            wd = os.path.join(VERIF, "logs", "lazy-replay")
+            shutil.rmtree(wd, ignore_errors=True)
+            os.makedirs(wd)
+            r = run_children([rp["job"]], wd)
+            if r and r[0][3] == 1 and r[0][2] and invariant_of(r[0][2].get("failure")) == rp["invariant"]:
+                print("reproduced: " + (r[0][2].get("failure") or "").splitlines()[0][:300])
+                print("VIOLATION property=C09 replay=%s" % replay)
+                sys.exit(1)
+            print("replay of %s: the child's executions complete without this violation on this tree" % replay)
+            sys.exit(0)
         if rp.get("engine") == "lazysim-crash":
             build()
             if rp["job"].get("variant"):
@@ -403,6 +451,12 @@ def main():
         jobs.append(dict(scheduler="random" if k % 2 == 0 else "pct", seed=val & 0x7FFFFFFFFFFFFFFF,
                          iters=max(100, iters // 2), threads=[2, 3, 4][k % 3], ops=[3, 2, 4][k % 3],
                          stack=0x40000, preflight=(k == 0), variant="relcheck"))
+    # long sessions: few threads, many calls each (state that accumulates over calls: caches with eviction, counters)
+    for k in range(4 if tier == "quick" else 24):
+        s, val = splitmix(s)
+        jobs.append(dict(scheduler="random" if k % 2 == 0 else "pct", seed=val & 0x7FFFFFFFFFFFFFFF,
+                         iters=max(40, iters // 10), threads=2, ops=[40, 80, 24, 120][k % 4],
+                         stack=0x40000, preflight=False, variant="relcheck" if k % 4 == 3 else None))
     # the standing build under restricted affinity too (anything sized by the number of visible cores)
     for k, cpus in enumerate([c for c in (3, 1) if c <= ncpu]):
         s, val = splitmix(s)
@@ -499,11 +553,46 @@ def main():
                        schedule_file=os.path.basename(dst)), open(replay_path, "w"), indent=1)
         rc, out = replay_schedule(dst, j["threads"], j["ops"], j.get("variant"), j.get("cpus"))
         if rc != 1:
+            # The failing execution alone does not fail in a fresh process: the code under test carries state
+            # from one execution to the next (shuttle runs all tasks of all executions of a child on one OS
+            # thread, so a thread-local cache survives). The child as a whole is still a pure function of its
+            # arguments: re-run it, and if it fails the same way the replay is the job itself.
+            j0 = failure[0]
+            again = run_children([j0], os.path.join(workdir, "job-again"))
+            a = again[0] if again else None
+            if a and a[3] == 1 and a[2] and invariant_of(a[2].get("failure")) == inv:
+                json.dump(dict(engine="lazysim-job", property="C09", invariant=inv, detail=a[2]["failure"], seed=seed, job=j0,
+                               note="history-dependent: reproduced by re-running the whole child (all its executions in order), not by the failing execution alone"),
+                          open(replay_path, "w"), indent=1)
+                print("note: the failing execution alone does not reproduce in a fresh process; the replay re-runs the child's executions in order")
+                print("VIOLATION property=C09 replay=%s" % replay_path)
+                sys.exit(1)
             harness_error("replay of %s did not reproduce in a fresh process (rc=%d): %s" % (dst, rc, out))
         print(out)
         print("VIOLATION property=C09 replay=%s" % replay_path)
         violations = 1
         exit_code = 1
+
+    edge_results = []
+    if exit_code == 0:
+        for mode in ("teardown", "starved"):
+            rc, out = run_edge(mode)
+            edge_results.append(dict(mode=mode, rc=rc))
+            if rc == 0:
+                continue
+            if rc == 2:
+                harness_error("edge scenario %s: %s" % (mode, out[-800:]))
+            inv = invariant_of(out) if rc == 1 else "crash_signal_%d" % (-rc)
+            name = "C09-%d-edge_%s_%s" % (seed, mode, inv)
+            replay_path = os.path.join(VERIF, "replays", name + ".json")
+            json.dump(dict(engine="lazysim-edge", property="C09", invariant=inv, mode=mode, seed=seed, detail=out[-1500:]),
+                      open(replay_path, "w"), indent=1)
+            line = next((l for l in out.splitlines() if "INVARIANT " in l), (out.splitlines() or [""])[-1])
+            print("violation found in edge scenario %s: %s :: %s" % (mode, inv, line[:300]))
+            print("VIOLATION property=C09 replay=%s" % replay_path)
+            violations = 1
+            exit_code = 1
+            break
 
     miri_runs = []
     if (miri_n > 0 or i686_override) and exit_code == 0:
@@ -566,6 +655,7 @@ def main():
             "shuttle_children_without_progress": len(hung),
             "lazy_cells_seen_by_stand_in": cells_seen,
             "raw_synchronisation_constructs_in_crate": raw[:10],
+            "edge_scenarios": edge_results,
             "configuration_variants": {"extra_feature_builds": variants,
                                        "children_of_checked_build": sum(1 for j in jobs if j.get("variant") == "relcheck"),
                                        "children_under_restricted_affinity": sum(1 for j in jobs if j.get("cpus")),
